@@ -483,6 +483,57 @@ def run(ctx):
                 break
     ctx.count("reads_on_reused_object", nhist)
 
+    # ---- 2d. the same with APPENDS between the reads, on a capture opened BY PATH (mode a+b: writes go to the end wherever the
+    #          reads left the position): after every append the new message is stored, every earlier one is still there, and a read
+    #          by index gives what a fresh object gives on the file as it is now - also for the index right behind the last read
+    import tempfile
+    nmix = 0
+    os.makedirs(common.WORK, exist_ok=True)
+    with tempfile.TemporaryDirectory(dir=common.WORK, prefix="c15-") as td:
+        for k, c in enumerate([c for c in caps if c["dom"] and len(c["ms"]) >= 1][:8 if quick else 60]):
+            path = os.path.join(td, "cap%d.bin" % k)
+            with open(path, "wb") as fh:
+                fh.write(bytes(c["file"]))
+            ddf = R.DD.DATADumpFile(path)
+            cur = list(c["ms"])
+            trace = []
+            bad = None
+            last = None
+            for _ in range(14):
+                w = rng.below(5)
+                if w < 2:
+                    m = small_valid(rng)
+                    if not in_domain(m):
+                        continue
+                    ddf.append_msg(U.real(m))
+                    cur.append(m)
+                    trace.append("append")
+                    last = None if last is None else last      # the next read often asks for last + 1 (sequential access)
+                    continue
+                if w == 2 and last is not None:
+                    i = last + 1
+                else:
+                    i = rng.below(len(cur) + 1)
+                ddf.f.flush()
+                content = list(open(path, "rb").read())
+                got, want = R.one(ddf.parse_msg(i)), R.parse_msg(content, i)
+                spec = ([0] + enc_msg(cur[i])) if i < len(cur) else None
+                trace.append("parse_msg(%d)" % i)
+                nmix += 1
+                last = i if got[0] == 0 else None
+                if got != want or (spec is not None and got[0] != 0):
+                    bad = (i, got, want)
+                    break
+            try:
+                ddf.f.close()
+            except Exception:  # noqa
+                pass
+            if bad:
+                ctx.oracle_fail("reads and appends mixed on one DATADumpFile (opened by path): a read by index differs from the same read on a fresh object over the file as it is now",
+                                dict(initial_msgs=[U.short(m) for m in c["ms"]], calls=trace, index=bad[0], stored=len(cur)), key="c15-read-after-append",
+                                expected=bad[2][:12], observed=bad[1][:12])
+    ctx.count("reads_mixed_with_appends", nmix)
+
     # ---- 3. truncation
     # exact comparison at sampled offsets (all record boundaries -1/0/+1, header boundaries +2/+3/+4, a few random ones)
     def cut_cases(c, p_all, p_idx, p_seek):
